@@ -196,6 +196,19 @@ def run(tier, seed):
         rot = gen.rotate(rec, len(rec) - k)           # the structure now starts k letters before the end
         histories.append([(sp, rot, False), (sp, rot, True), (sp, rec, False)])
         histories.append([(sp, rot, True), (sp, rot, False), (sp, rec, True)])
+    # user subclasses of the plain level classes of the kits that only declare another cutter: parent first, then child
+    from Bio import Restriction as _BR
+    plain = [(sp, c) for sp, c in kcs if classes.describe(c)["generic"]]
+    others = [e for e in enz.distinct_geometries() if e.__name__ in ("BsmBI", "BbsI", "BsaI", "FokI", "BspQI", "AarI")]
+    for sp, c in (rng.sample(plain, min(len(plain), 8)) if q else plain):
+        e2 = rng.choice([e for e in others if e is not c.cutter])
+        child = {"subclass_of": sp, "enz": classes.enz_spec(e2), "name": "Custom" + sp["name"] + e2.__name__}
+        G2 = gen.geometry_of(e2)
+        ov = G2.overhangs(2, rng)
+        rec2 = G2.module(ov[0], gen.rnd(5, rng), ov[1], gen.rnd(4, rng), rng) if classes.role_of(c) == "module" \
+            else G2.vector(ov[0], ov[1], gen.rnd(3, rng), gen.rnd(5, rng), rng)
+        if rec2:
+            histories.append([(sp, members[sp["name"]]), (child, rec2), (child, members[sp["name"]])])
     run.extra["kit_class_pairs"] = len(pairs)
     base = {}
     traces = []
